@@ -9,6 +9,7 @@ import (
 	"net/http"
 	"net/url"
 	"strings"
+	"sync"
 	"testing/synctest"
 	"time"
 
@@ -90,6 +91,8 @@ func execCluster(prop string) func(run *simkit.Run) {
 				return
 			}
 		}
+		guard := &hopGuard{w: w, counts: map[string]int{}}
+		w.nw.OnFirstWrite = guard.onFirstWrite
 		rng := run.Aux
 		for i := 0; i < c.Int("init_apps"); i++ {
 			w.opListen(rng.Intn(1<<16), rng.Intn(1<<16), rng.Intn(1<<16))
@@ -331,6 +334,55 @@ func (w *cluster3) judge(rq *httpReq, res *httpResult, localBefore bool, entry *
 	if localBefore && entry.alive && entry.srv.ClusterState().LocalNode().Endpoints[rq.Endpoint] > 0 && w.async == 0 && w.quietFor(rq.Endpoint, entry) {
 		if n != 1 {
 			run.Fail("C06.local", "forwarded-despite-local-upstream", "request %s entered %s which holds an upstream for %q, but crossed %d proxy ports: %v", rq.ID, entry.id, rq.Endpoint, n, path)
+		}
+	}
+}
+
+// hopGuard is called by the network for every stream connection when its
+// request head is written: a request that keeps crossing proxy ports (a
+// forwarding loop) is judged at once and the loop is cut, instead of letting
+// it amplify (possibly without any virtual time passing) until the run's limit.
+type hopGuard struct {
+	w                  *cluster3
+	mu                 sync.Mutex
+	counts             map[string]int
+	tcpNode, tcpClient int
+}
+
+func (g *hopGuard) onFirstWrite(c *simnet.ConnInfo) {
+	if !strings.HasSuffix(c.Dst, ":8000") {
+		return
+	}
+	g.mu.Lock()
+	defer g.mu.Unlock()
+	w := g.w
+	if bytes.HasPrefix(c.Head, []byte("GET /_piko/v1/tcp/")) {
+		// tunnelled TCP carries no request id: every dial of a client may be
+		// forwarded at most once, so node-originated tunnel requests can never
+		// outnumber client-originated ones
+		if strings.HasPrefix(c.SrcHost, "10.0.0.") {
+			g.tcpNode++
+		} else {
+			g.tcpClient++
+		}
+		if g.tcpNode > g.tcpClient {
+			w.run.Fail("C06.hops", "tcp-forwarded-more-than-once", "%d tunnelled TCP requests were sent by nodes for only %d sent by clients (last %s->%s)", g.tcpNode, g.tcpClient, c.SrcHost, c.Dst)
+			w.nw.RefusePort(8000)
+			g.tcpClient = 1 << 30
+		}
+		return
+	}
+	i := bytes.Index(c.Head, []byte("X-Verif-Id: "))
+	if i < 0 {
+		return
+	}
+	rest := c.Head[i+12:]
+	if j := bytes.IndexByte(rest, '\r'); j > 0 {
+		id := string(rest[:j])
+		g.counts[id]++
+		if g.counts[id] == 4 {
+			w.run.Fail("C06.hops", "more-than-one-forward", "request %s keeps crossing proxy ports (%d so far, last %s->%s)", id, g.counts[id], c.SrcHost, c.Dst)
+			w.nw.RefusePort(8000)
 		}
 	}
 }
